@@ -331,7 +331,8 @@ def instances(tier):
         out.append(inst_chain(kind, (2,), [(LO,), (F,)], rechunk_at=1, new_blocks=(2,)))
         if not q:
             out.append(inst_chain(kind, (3,), [(F,), (F,), (F,)]))
-            out.append(inst_chain(kind, (3, 2), [(F, F), (F, F)]))
+            out.append(inst_chain(kind, (3, 2), [(F, LO)]))
+            out.append(inst_chain(kind, (2, 2), [(F, LO), (HI, F)]))
             out.append(inst_chain(kind, (2, 2), [(F, F)], rechunk_at=1, new_blocks=(2, 2)))
             out.append(inst_chain(kind, (3,), [(LO,), (F,)], rechunk_at=1, new_blocks=(3,)))
     # inline_array=True takes a different graph-construction branch for stores
